@@ -6,7 +6,7 @@ import sys, os, importlib
 sys.path.insert(0, os.path.dirname(os.path.abspath(__file__)))
 from common import ExtractError, write_if_changed
 
-MODULES = ['hashmap', 'literals', 'declspec', 'commontype', 'casttable', 'lexgen', 'consteval', 'pp', 'envreads', 'c10incl', 'addrforms', 'templates', 'funcall', 'fpliteral', 'c14args', 'c12audit', 'retstmt']
+MODULES = ['hashmap', 'literals', 'declspec', 'commontype', 'casttable', 'lexgen', 'consteval', 'pp', 'envreads', 'c10incl', 'addrforms', 'templates', 'funcall', 'fpliteral', 'c14args', 'c12audit', 'retstmt', 'c10ifparse', 'strjoin']
 
 def main():
     repo, out = sys.argv[1], sys.argv[2]
